@@ -122,8 +122,10 @@ INTERP = z3.Function('spectrum_interp', _I, _I, _Rs, _Rs, _Rs)      # spectrum s
 METHOD_ID = {'linear': 1, 'quadratic': 2, 'cubic': 3}
 
 
-def mk_spectrum(ctx, name, waveunit='nm', valueunit=None, n=None):
-    """A well-formed Spectrum (class invariant: strictly increasing positive wavelengths, one value each)."""
+def mk_spectrum(ctx, name, waveunit='nm', valueunit=None, n=None, pairwise=False):
+    """A well-formed Spectrum (class invariant: strictly increasing positive wavelengths, one value each).
+    pairwise=True also states the invariant for arbitrary index pairs p < q (equivalent to the consecutive
+    form by induction on q - p; SMT solvers do not do that induction themselves)."""
     cls = ctx.world.repo.klass('lentil.radiometry.Spectrum')
     n = n if n is not None else ctx.fresh_int(name + '.n')
     if S.is_z3(n):
@@ -133,6 +135,10 @@ def mk_spectrum(ctx, name, waveunit='nm', valueunit=None, n=None):
     q = z3.Int(ctx._name('wq'))
     ctx.assume(z3.ForAll([q], z3.Implies(z3.And(q >= 0, q < S.z(n)), S.z(wave.at((q,))) > 0)), axiom=True)
     ctx.assume(z3.ForAll([q], z3.Implies(z3.And(q >= 0, q + 1 < S.z(n)), S.z(wave.at((q,))) < S.z(wave.at((q + 1,))))), axiom=True)
+    if pairwise:
+        p2 = z3.Int(ctx._name('wp'))
+        ctx.assume(z3.ForAll([p2, q], z3.Implies(z3.And(p2 >= 0, p2 < q, q < S.z(n)),
+                                                 S.z(wave.at((p2,))) < S.z(wave.at((q,))))), axiom=True)
     sp = Obj(cls, {'_wave': wave, '_value': value, '_waveunit': unit_obj(ctx, waveunit),
                    '_valueunit': unit_obj(ctx, valueunit) if valueunit else None, '__array_priority__': Fraction(1)})
     sp.attrs['_ghost_sid'] = ctx.fresh_int(name + '.state')
@@ -143,6 +149,20 @@ def wave_setter_model(ctx, env):
     """Spectrum.wave = value: validates (positive, increasing, unique) and stores; the validity of a
     symbolic grid is an abstract condition here (the validation code uses numpy sort)."""
     self, value = env['self'], A.as_array(ctx, env['value'])
+    if getattr(ctx, 'grid_validation', None) == 'prove':
+        # client lemmas that only ever hand over valid grids: show the grid positive and strictly increasing
+        # (obligation) - the real validation accepts exactly such grids (checked natively, bounded C15)
+        q = ctx.fresh_int('gq')
+        n = value.shape[0]
+        k = len(ctx.__dict__.setdefault('ghost_wave_sets', []))
+        ctx.oblige('radiometry.Spectrum.wave.setter::grid_positive_and_increasing[%s#%d]' % (getattr(ctx, 'grid_tag', ''), k),
+                   z3.And(z3.Implies(z3.And(q >= 0, q < S.z(n)), S.z(S.gt(value.at((q,)), 0))),
+                          z3.Implies(z3.And(q >= 0, q + 1 < S.z(n)), S.z(S.lt(value.at((q,)), value.at((q + 1,)))))), 'requires')
+        ctx.ghost_wave_sets.append({'self': self, 'value': value, 'ok': True})
+        ctx.assumptions.add('abstract:Spectrum.wave setter accepts every positive strictly increasing grid')
+        self.attrs['_wave'] = value
+        ctx.write_event(self, 'setattr _wave')
+        return None
     ok = ctx.fresh_bool('wave_grid_valid')
     ctx.__dict__.setdefault('ghost_wave_sets', []).append({'self': self, 'value': value, 'ok': ok})
     if not ctx.branch(ok):
@@ -197,8 +217,232 @@ ci = contract('lentil.radiometry.Spectrum.integrate')
 ci.call_model = integrate_call_model
 
 
+# ---- Spectrum.integrate, trapezoid rule, on the real code (C15): closed-range sample selection, then the
+# trapezoid sum of exactly the selected samples ----
+
+def trapezoid_between(ctx, wave, value, lo, hi):
+    """sum over k of [lo <= w[k] and w[k+1] <= hi] (w[k+1] - w[k]) (v[k] + v[k+1]) / 2 ; lo/hi None = no bound.
+    (On a strictly increasing grid, samples k and k+1 both lie in [lo, hi] iff lo <= w[k] and w[k+1] <= hi.)"""
+    n = wave.shape[0]
+
+    def body(k):
+        k1 = S.add(k, 1)
+        trap = S.truediv(S.mul(S.sub(wave.at((k1,)), wave.at((k,))), S.add(value.at((k,)), value.at((k1,)))), 2)
+        if lo is None and hi is None:
+            return trap
+        inside = S.and_(S.ge(wave.at((k,)), lo) if lo is not None else True, S.le(wave.at((k1,)), hi) if hi is not None else True)
+        return S.ite(inside, trap, 0)
+    return S.sigma(0, S.max_(S.sub(n, 1), 0), body)
+
+
+def _integrate_contract(tag, with_range, method):
+    c = contract('lentil.radiometry.Spectrum.integrate#%s' % tag, level='P')
+    c.qualname = 'lentil.radiometry.Spectrum.integrate'
+    c.tag = tag
+
+    def params(ctx):
+        sp = mk_spectrum(ctx, 's', pairwise=True)
+        env = {'self': sp, 'start': None, 'end': None, 'method': method}
+        if with_range == 'both':
+            env['start'], env['end'] = ctx.fresh_real('start'), ctx.fresh_real('end')
+        elif with_range == 'start':
+            env['start'] = ctx.fresh_real('start')
+        elif with_range == 'end':
+            env['end'] = ctx.fresh_real('end')
+        return env
+    c.params = params
+    c.modifies = set()
+    if method != 'trapz':
+        c.raises['ValueError'] = lambda ctx, env: z3.BoolVal(True)
+        return c
+
+    @c.post('trapezoid_sum_of_the_samples_inside_the_closed_range')
+    def _(ctx, env0, env, out):
+        sp = env0['self']
+        w, v = sp.attrs['_wave'], sp.attrs['_value']
+        want = trapezoid_between(ctx, w, v, env0['start'], env0['end'])
+        oblige_equal(ctx, 'radiometry.Spectrum.integrate::trapezoid_over_closed_range[%s]' % tag, out.value, want)
+        return None         # the frame (modifies = {}) states that the spectrum itself is not changed
+    return c
+
+
+INTEGRATE = []
+for _tag, _rng, _m in [('trapz-full', None, 'trapz'), ('trapz-range', 'both', 'trapz'), ('trapz-from', 'start', 'trapz'),
+                       ('trapz-to', 'end', 'trapz'), ('unknown-method', 'both', 'trapezoid')]:
+    _integrate_contract(_tag, _rng, _m)
+    INTEGRATE.append('lentil.radiometry.Spectrum.integrate#' + _tag)
+
+
 def method(ctx, sp, name):
     return sp.cls.find(ctx.world.repo, name)
+
+
+def spectrum_to_lemmas():
+    """C14: Spectrum.to on the real code, one lemma per (wavelength unit, value unit) start state."""
+    out = []
+
+    def run_to(ctx, sp, *units):
+        ctx.world.interp.call_function(ctx, method(ctx, sp, 'to'), [sp] + list(units), {})
+
+    def clone(ctx, sp):
+        # Spectrum.to rebinds wave / value (no in-place array writes), so sharing the arrays is safe
+        o = Obj(sp.cls, dict(sp.attrs))
+        return o
+
+    def same_state(ctx, name, a, b, n):
+        i, = ints(ctx, 'i')
+        wa, va = A.as_array(ctx, a.attrs['_wave']), A.as_array(ctx, a.attrs['_value'])
+        wb, vb = A.as_array(ctx, b.attrs['_wave']), A.as_array(ctx, b.attrs['_value'])
+        g = ctx.world.interp.getattr
+        ctx.oblige(name + '.units', g(ctx, a, 'waveunit') == g(ctx, b, 'waveunit') and g(ctx, a, 'valueunit') == g(ctx, b, 'valueunit'))
+        ctx.oblige(name + '.lengths', z3.And(S.z(S.eq(wa.shape[0], n)), S.z(S.eq(wb.shape[0], n)), S.z(S.eq(va.shape[0], n)), S.z(S.eq(vb.shape[0], n))))
+        with_hyp_(ctx, [i >= 0, i < S.z(n)], lambda: ctx.oblige(name + '.samples', S.and_(S.eq(wa.at((i,)), wb.at((i,))), S.eq(va.at((i,)), vb.at((i,))))))
+
+    PRE = ['import json, warnings', 'warnings.simplefilter("ignore")', 'import numpy as np', 'import lentil.radiometry as r',
+           'SI = {"m": 1.0, "um": 1e-6, "nm": 1e-9, "angstrom": 1e-10}',
+           'w = np.array([1.0, 2.0, 3.5, 4.0, 7.25]); v = np.array([1.0, 3.0, 2.0, 5.0, 0.5])',
+           'def close(a, b): return np.shape(a) == np.shape(b) and bool(np.allclose(a, b, rtol=1e-12, atol=0))',
+           'def trap(x, y): return float(np.sum(np.diff(x) * (y[1:] + y[:-1]) / 2))', 'obs = {}']
+
+    def make_wave(u, vu, u2):
+        def lemma(ctx):
+            ctx.grid_validation = 'prove'
+            g = ctx.world.interp.getattr
+            tag = ctx.grid_tag = '%s,%s->%s' % (u, vu, u2)
+            sp = mk_spectrum(ctx, 's', waveunit=u, valueunit=vu)
+            w0, v0 = sp.attrs['_wave'], sp.attrs['_value']
+            n = w0.shape[0]
+            run_to(ctx, sp, u2)
+            w1, v1 = A.as_array(ctx, sp.attrs['_wave']), A.as_array(ctx, sp.attrs['_value'])
+            f = SI[u] / SI[u2]
+            i, = ints(ctx, 'i')
+            inr = [i >= 0, i < S.z(n)]
+            ctx.oblige('C14::Spectrum.to.waveunit_updated[%s]' % tag, g(ctx, sp, 'waveunit') == g(ctx, unit_obj(ctx, u2), 'name'))
+            ctx.oblige('C14::Spectrum.to.valueunit_kept[%s]' % tag, g(ctx, sp, 'valueunit') == vu)
+            ctx.oblige('C14::Spectrum.to.lengths[%s]' % tag, z3.And(S.z(S.eq(w1.shape[0], n)), S.z(S.eq(v1.shape[0], n))))
+            with_hyp_(ctx, inr, lambda: ctx.oblige('C14::Spectrum.to.wave_scaled_by_unit_ratio[%s]' % tag,
+                                                   S.eq(w1.at((i,)), S.mul(w0.at((i,)), f))))
+            if vu is None:
+                with_hyp_(ctx, inr, lambda: ctx.oblige('C14::Spectrum.to.unitless_values_kept[%s]' % tag,
+                                                       S.eq(v1.at((i,)), v0.at((i,)))))
+            else:
+                with_hyp_(ctx, inr, lambda: ctx.oblige('C14::Spectrum.to.density_values_divided_by_ratio[%s]' % tag,
+                                                       S.eq(v1.at((i,)), S.truediv(v0.at((i,)), f))))
+                oblige_equal(ctx, 'C14::Spectrum.to.integral_preserved[%s]' % tag,
+                             trapezoid_between(ctx, w1, v1, None, None), trapezoid_between(ctx, w0, v0, None, None))
+            # and back: the round trip restores wave and value
+            run_to(ctx, sp, u)
+            w2, v2 = A.as_array(ctx, sp.attrs['_wave']), A.as_array(ctx, sp.attrs['_value'])
+            with_hyp_(ctx, inr, lambda: ctx.oblige('C14::Spectrum.to.round_trip_restores[%s]' % tag,
+                                                   S.and_(S.eq(w2.at((i,)), w0.at((i,))), S.eq(v2.at((i,)), v0.at((i,))))))
+            if u2 != WAVE_UNITS[0]:
+                return
+            # refusals (once per start state)
+            sp = mk_spectrum(ctx, 's', waveunit=u, valueunit=vu)
+            if vu is None:
+                try:
+                    run_to(ctx, sp, 'flam')
+                    ctx.oblige('C14::Spectrum.to.unitless_to_flux_refused[%s]' % u, False)
+                except Raised as r:
+                    ctx.oblige('C14::Spectrum.to.unitless_to_flux_refused[%s]' % u, r.exc == 'TypeError')
+            try:
+                run_to(ctx, sp, 'parsec')
+                ctx.oblige('C14::Spectrum.to.unknown_unit_refused[%s,%s]' % (u, vu), False)
+            except Raised as r:
+                ctx.oblige('C14::Spectrum.to.unknown_unit_refused[%s,%s]' % (u, vu), r.exc == 'ValueError')
+
+        def native_replay(obname, model):
+            """The same conversion and round trip on the real class with a fixed non-uniform spectrum."""
+            return '\n'.join(PRE + [
+                's = r.Spectrum(w.copy(), v.copy(), waveunit=%r, valueunit=%r)' % (u, vu),
+                'f = SI[%r] / SI[%r]' % (u, u2),
+                's.to(%r)' % u2,
+                'obs["wave"] = close(s.wave, w * f)',
+                'obs["value"] = close(s.value, v / f)' if vu else 'obs["value"] = close(s.value, v)',
+                'obs["integral"] = close(trap(s.wave, s.value), trap(w, v))' if vu else 'pass',
+                'obs["units"] = (s.waveunit == r.Unit(%r).name and s.valueunit == %r)' % (u2, vu),
+                's.to(%r)' % u,
+                'obs["round_trip"] = close(s.wave, w) and close(s.value, v)',
+                'print(json.dumps({"violated": not all(obs.values()), "clauses_holding": obs}))'])
+        lemma.native_replay = native_replay
+        return lemma
+
+    def make_flux(u, vu, vu2):
+        def lemma(ctx):
+            ctx.grid_validation = 'prove'
+            g = ctx.world.interp.getattr
+            tag = ctx.grid_tag = '%s,%s->%s' % (u, vu, vu2)
+            sp = mk_spectrum(ctx, 's', waveunit=u, valueunit=vu)
+            w0, v0 = sp.attrs['_wave'], sp.attrs['_value']
+            n = w0.shape[0]
+            run_to(ctx, sp, vu2)
+            v1 = A.as_array(ctx, sp.attrs['_value'])
+            i, = ints(ctx, 'i')
+            inr = [i >= 0, i < S.z(n)]
+            ctx.oblige('C14::Spectrum.to.flux.wave_untouched[%s]' % tag, sp.attrs['_wave'] is w0 and g(ctx, sp, 'waveunit') == u)
+            ctx.oblige('C14::Spectrum.to.flux.valueunit_updated[%s]' % tag, g(ctx, sp, 'valueunit') == vu2)
+            # the stored value, per metre, is the flux-unit conversion of the old value per metre at the
+            # wavelength in metres (the unit classes' own table is proved consistent in C14::flux_unit_table)
+            m = SI[u]
+            want = lambda: S.mul(flux_to(ctx, vu, S.truediv(v0.at((i,)), m), vu2, S.mul(w0.at((i,)), m)), m)
+            with_hyp_(ctx, inr, lambda: ctx.oblige('C14::Spectrum.to.flux.converted_in_si[%s]' % tag, S.eq(v1.at((i,)), want())))
+            run_to(ctx, sp, vu)
+            v2 = A.as_array(ctx, sp.attrs['_value'])
+            with_hyp_(ctx, inr, lambda: ctx.oblige('C14::Spectrum.to.flux.round_trip_restores[%s]' % tag, S.eq(v2.at((i,)), v0.at((i,)))))
+
+        def native_replay(obname, model):
+            return '\n'.join(PRE + [
+                's = r.Spectrum(w.copy(), v.copy(), waveunit=%r, valueunit=%r)' % (u, vu),
+                'm = SI[%r]' % u,
+                'want = r.Unit(%r).to(v / m, %r, w * m) * m' % (vu, vu2),
+                's.to(%r)' % vu2,
+                'obs["wave_untouched"] = close(s.wave, w) and s.waveunit == %r' % u,
+                'obs["converted_in_si"] = close(s.value, want) and s.valueunit == %r' % vu2,
+                's.to(%r)' % vu,
+                'obs["round_trip"] = close(s.value, v)',
+                'print(json.dumps({"violated": not all(obs.values()), "clauses_holding": obs}))'])
+        lemma.native_replay = native_replay
+        return lemma
+
+    def make_both(u, vu, u2, vu2):
+        def lemma(ctx):
+            # simultaneous conversion: to(a, b) is to(a) followed by to(b), in either argument order
+            ctx.grid_validation = 'prove'
+            for order in ((u2, vu2), (vu2, u2)):
+                tag2 = ctx.grid_tag = '%s,%s->(%s,%s)' % (u, vu, order[0], order[1])
+                a = mk_spectrum(ctx, 's', waveunit=u, valueunit=vu)
+                n = a.attrs['_wave'].shape[0]
+                b = clone(ctx, a)
+                run_to(ctx, a, *order)
+                run_to(ctx, b, order[0])
+                run_to(ctx, b, order[1])
+                same_state(ctx, 'C14::Spectrum.to.two_units_at_once_is_one_after_the_other[%s]' % tag2, a, b, n)
+
+        def native_replay(obname, model):
+            lines = list(PRE)
+            for k, order in enumerate(((u2, vu2), (vu2, u2))):
+                lines += ['a = r.Spectrum(w.copy(), v.copy(), waveunit=%r, valueunit=%r)' % (u, vu),
+                          'b = r.Spectrum(w.copy(), v.copy(), waveunit=%r, valueunit=%r)' % (u, vu),
+                          'a.to(%r, %r)' % order, 'b.to(%r)' % order[0], 'b.to(%r)' % order[1],
+                          'obs["order%d"] = close(a.wave, b.wave) and close(a.value, b.value) and a.waveunit == b.waveunit and a.valueunit == b.valueunit' % k]
+            lines.append('print(json.dumps({"violated": not all(obs.values()), "clauses_holding": obs}))')
+            return '\n'.join(lines)
+        lemma.native_replay = native_replay
+        return lemma
+    for u in WAVE_UNITS:
+        for vu in [None] + FLUX_UNITS:
+            for u2 in WAVE_UNITS:
+                out.append(('C14::Spectrum.to[%s,%s->%s]' % (u, vu, u2), make_wave(u, vu, u2)))
+            if vu is None:
+                continue
+            for vu2 in FLUX_UNITS:
+                out.append(('C14::Spectrum.to[%s,%s->%s]' % (u, vu, vu2), make_flux(u, vu, vu2)))
+                for u2 in WAVE_UNITS:
+                    out.append(('C14::Spectrum.to[%s,%s->%s+%s]' % (u, vu, u2, vu2), make_both(u, vu, u2, vu2)))
+    return out
+
+
+WAVE_ALIASES_CANON = {}
 
 
 def spectrum_lemmas():
@@ -506,4 +750,25 @@ def c15_lemmas():
         rhs = S.add(S.truediv(S.mul(p, S.sub(S.mul(x1, x1), S.mul(x0, x0))), 2), S.mul(q, S.sub(x1, x0)))
         ctx.oblige('C15::trapz.exact_for_linear_data', S.eq(lhs, rhs))
     out.append(('C15::trapezoid_rule', trapezoid_rule))
+
+    def integrate_additive_and_linear(ctx):
+        """Over the postcondition of Spectrum.integrate (trapezoid_between): for a <= b <= c with b a sample
+        point, I(a,b) + I(b,c) = I(a,c); and I is linear in the values (same grid)."""
+        sp = mk_spectrum(ctx, 's', pairwise=True)
+        w, v = sp.attrs['_wave'], sp.attrs['_value']
+        n = w.shape[0]
+        a, c = ctx.fresh_real('a'), ctx.fresh_real('c')
+        kb = ctx.fresh_int('kb')
+        ctx.assume(z3.And(kb >= 0, kb < S.z(n)))
+        b = w.at((kb,))
+        ctx.assume(z3.And(a <= S.z(b), S.z(b) <= c))
+        oblige_equal(ctx, 'C15::integrate.additive_over_adjacent_intervals_meeting_at_a_sample',
+                     S.add(trapezoid_between(ctx, w, v, a, b), trapezoid_between(ctx, w, v, b, c)),
+                     trapezoid_between(ctx, w, v, a, c))
+        v2 = array(ctx, 'v2', (n,), 'float')
+        p, q = ctx.fresh_real('p'), ctx.fresh_real('q')
+        lin = A.elementwise(ctx, lambda x, y: S.add(S.mul(p, x), S.mul(q, y)), [v, v2], dtype='float')
+        oblige_equal(ctx, 'C15::integrate.linear_in_the_values', trapezoid_between(ctx, w, lin, a, c),
+                     S.add(S.mul(trapezoid_between(ctx, w, v, a, c), p), S.mul(trapezoid_between(ctx, w, v2, a, c), q)))
+    out.append(('C15::integrate_additive_linear', integrate_additive_and_linear))
     return out
